@@ -69,6 +69,14 @@ pub fn check_with(tree: &Expr, threads: Option<u32>, acc: &mut Acc) {
 }
 
 pub fn check_on(tree: &Expr, threads: Option<u32>, recs: &[Record], acc: &mut Acc) {
+    check_on_at(tree, threads, recs, 1_700_000_000, acc)
+}
+
+/// `now` is the clock reading the reference evaluates time tests with.  The emitted program embeds
+/// the second of its compile call; trees holding time tests are therefore only given to this check
+/// with records so old (years) and counts so small (0..2 units) that the answer of every time
+/// test is the same for any clock reading of this decade.
+pub fn check_on_at(tree: &Expr, threads: Option<u32>, recs: &[Record], now: u64, acc: &mut Acc) {
     if tree.depth() > 20 {
         speclib::report::enter_case(|| format!("tree of depth {} with {} leaves: {}…", tree.depth(), tree.leaves(), tree.show().chars().take(120).collect::<String>()));
     }
@@ -100,7 +108,7 @@ pub fn check_on(tree: &Expr, threads: Option<u32>, recs: &[Record], acc: &mut Ac
     for (i, r) in recs.iter().enumerate() {
         // find's rule, stated directly: no action anywhere => as if "( expr ) -a -print"
         let effective = if has_action { tree.clone() } else { Expr::and(tree.clone(), Expr::Action(Action::Print)) };
-        let want = eval::eval(&effective, r, 1_700_000_000).unwrap();
+        let want = eval::eval(&effective, r, now).unwrap();
         let got = coalesce(&obs.records[i].events);
         let w = coalesce(&want.events);
         acc.outcome(&(got.clone(), has_action));
@@ -415,6 +423,35 @@ pub fn run(ctx: &Ctx) -> i32 {
         }
         acc = acc.merge(speclib::report::par_items(&trees, |t, acc| check(t, acc)));
     }
+    // every kind of test the target supports (the whole leaf menu of C02, not only -name and
+    // the constants): alone, negated, and on either side of an action under each operator - a
+    // test never counts as an action, never hides one, and the print that is added comes after
+    // it; a rewrite that treats one kind of test specially shows up here
+    {
+        let mut trees = vec![];
+        for l in crate::props::c02::full_menu() {
+            if !matches!(l, Expr::Test(_)) {
+                continue;
+            }
+            trees.push(l.clone());
+            trees.push(Expr::not(l.clone()));
+            trees.push(Expr::and(l.clone(), Expr::Test(Test::Name("x".into()))));
+            trees.push(Expr::or(Expr::Test(Test::Name("x".into())), l.clone()));
+            for a in [Action::Print, Action::PrintFid, Action::Print0, Action::Quit] {
+                let a = Expr::Action(a);
+                trees.push(Expr::and(l.clone(), a.clone()));
+                trees.push(Expr::and(a.clone(), l.clone()));
+                trees.push(Expr::or(l.clone(), a.clone()));
+                trees.push(Expr::list(l.clone(), a.clone()));
+                trees.push(Expr::list(a.clone(), l.clone()));
+                trees.push(Expr::and(Expr::not(l.clone()), a.clone()));
+            }
+        }
+        acc.count("test_kind_trees", trees.len() as u64);
+        let now = std::time::SystemTime::now().duration_since(std::time::UNIX_EPOCH).map(|d| d.as_secs()).unwrap_or(1_790_000_000).max(1_760_000_000);
+        let recs = records();
+        acc = acc.merge(speclib::report::par_items(&trees, |t, acc| check_on_at(t, None, &recs, now, acc)));
+    }
     acc = acc.merge(unsupported_actions());
     // through the command line: chains of 1..40 operands (juxtaposed, -a, -o, ',') with the only
     // action last / first / absent; the parsed expression is judged by the reference reading of
@@ -501,7 +538,10 @@ pub fn replay(w: &Value) -> Vec<Violation> {
     if w["kind"] == "history" {
         histories(&mut acc);
     } else if let Ok(t) = serde_json::from_value::<Expr>(w["tree"].clone()) {
-        check_with(&t, w["threads"].as_u64().map(|t| t as u32), &mut acc);
+        // trees holding a time test were judged with the present clock reading (see check_on_at)
+        let timed = t.show().contains("Time(");
+        let now = if timed { std::time::SystemTime::now().duration_since(std::time::UNIX_EPOCH).map(|d| d.as_secs()).unwrap_or(1_790_000_000).max(1_760_000_000) } else { 1_700_000_000 };
+        check_on_at(&t, w["threads"].as_u64().map(|t| t as u32), &records(), now, &mut acc);
     }
     acc.violations.into_values().map(|(v, _)| v).collect()
 }
